@@ -590,6 +590,37 @@ class C12(Check):
             if r2["rv"] != K.CKR_OPERATION_NOT_INITIALIZED:
                 raise self.V("after a failed %s (%s) the operation is still there: %s -> %s" % (D.fns()[1], K.rvname(r["rv"]), D.fns()[2], K.rvname(r2["rv"])))
             self.count("failed_op_gone")
+        # ---- any interleaving: single-part after Update, and Final after arbitrary (also invalid) input -----------------------
+        # Only the universal clauses are judged here: nothing is written beyond the announced / reported length, a reported
+        # length stays within the bound, a buffer of the reported length is not answered with CKR_BUFFER_TOO_SMALL, and the
+        # session is usable afterwards.  Which return code the mix produces is not fixed by the statement.
+        if kind == "cipher":
+            for scenario in ("mix_single_after_update", "final_after_garbage"):
+                for d2 in ("enc", "dec"):
+                    E = OpDriver(self, w, sa, sp, keys, params, d2)
+                    if E.init() != K.CKR_OK:
+                        continue
+                    g1 = bytes(((prog["seed"] * 5 + j * 3) & 0xFF) for j in range(prog["chunks"][0] % 40))
+                    g2 = bytes(((prog["seed"] * 7 + j * 11) & 0xFF) for j in range(prog["chunks"][-1] % 40))
+                    rv1 = E.update(g1, bm[1], scenario)
+                    if rv1 != K.CKR_OK:
+                        continue
+                    if scenario == "mix_single_after_update":
+                        E.single(g2, bm[2] if bm[2] != "big" else "query", scenario)
+                    else:
+                        rvf = E.final(bm[3] if bm[3] != "big" else "query", scenario)
+                        if rvf == K.CKR_OK or rvf != K.CKR_BUFFER_TOO_SMALL:
+                            pass
+                    self.count("interleavings_" + scenario)
+                    # terminate whatever is left (any error but BUFFER_TOO_SMALL ends it) and check the session is free again
+                    for _ in range(3):
+                        rz = w.call(E.fns()[3], s=sa, out=70000)
+                        if rz["rv"] != K.CKR_BUFFER_TOO_SMALL:
+                            break
+                    else:
+                        raise self.V("%s: the operation cannot be finished: C_*Final keeps answering CKR_BUFFER_TOO_SMALL for a 70000-byte buffer (reports %d)" % (scenario, rz["out"]["len"]))
+                    if rz["out"].get("canary") is False:
+                        raise self.V("%s: final call wrote outside the buffer" % scenario)
         # a new operation can start: the session is not stuck
         rv = w.C_DigestInit(s=sa, mech={"m": K.CKM_SHA256})["rv"]
         if rv != K.CKR_OK:
